@@ -57,7 +57,8 @@ def gen_cases(rng, tier: str) -> list[dict]:
             cases.append(c)
     for origin, pairs in (("near-special", common.near_special(rng, common.sizes(tier, 40, 600))),
                           ("compensating-magnitudes", common.compensating_products(rng, common.sizes(tier, 40, 600))),
-                          ("vanishing-factor", common.vanishing_products(rng, common.sizes(tier, 40, 600)))):
+                          ("vanishing-factor", common.vanishing_products(rng, common.sizes(tier, 40, 600))),
+                          ("tiny-powers", common.tiny_powers(rng, common.sizes(tier, 30, 400)))):
         for e, pt in pairs:
             c = common.make_eval_case(origin, e, pt)
             c.update(x=rng.choice(common.names_of(e)), xobj=rng.random() < 0.5, prior=None)
